@@ -1,0 +1,60 @@
+//go:build verif
+
+package concurrent
+
+// Verification hook H1 (build tag `verif`): seeded perturbation of the schedule of Foreach.
+// With seed 0 (default) both functions do nothing.
+
+import (
+	"math/rand"
+	"runtime"
+	"sync"
+	"time"
+)
+
+var (
+	verifMu   sync.Mutex
+	verifRand *rand.Rand
+)
+
+// VerifSetSchedule selects the schedule perturbation: seed 0 switches it off; any other seed
+// makes Foreach start its elements in a seeded random order and yield/sleep at the points
+// marked with verifYield.
+func VerifSetSchedule(seed int64) {
+	verifMu.Lock()
+	defer verifMu.Unlock()
+	if seed == 0 {
+		verifRand = nil
+		return
+	}
+	verifRand = rand.New(rand.NewSource(seed))
+}
+
+func verifPermute[E any](collection []E) []E {
+	verifMu.Lock()
+	defer verifMu.Unlock()
+	if verifRand == nil || len(collection) < 2 {
+		return collection
+	}
+	out := make([]E, len(collection))
+	copy(out, collection)
+	verifRand.Shuffle(len(out), func(i, j int) { out[i], out[j] = out[j], out[i] })
+	return out
+}
+
+func verifYield() {
+	verifMu.Lock()
+	if verifRand == nil {
+		verifMu.Unlock()
+		return
+	}
+	k := verifRand.Intn(8)
+	verifMu.Unlock()
+	switch {
+	case k < 3:
+	case k < 6:
+		runtime.Gosched()
+	default:
+		time.Sleep(time.Duration(k-5) * 200 * time.Microsecond)
+	}
+}
